@@ -821,7 +821,7 @@ def weights_account(v, trace, res):
 
 def _c20(work, v, tier, seed):
     vf.build_driver(work)
-    trace = vf.drive(work, "weights", n=60 if tier == "quick" else 1500, seed=seed, tier=tier)
+    trace = vf.drive(work, "weights", n=60 if tier == "quick" else 1500, seed=seed, tier=tier, env=cli_env(work, 3))
     res = vf.tlc_trace(work, "Trace_Weights", trace, cfg=write_cfg(work, "Trace_Weights.cfg", invariants=["Done"]), timeout=3000)
     weights_account(v, trace, res)
     v.assumptions += ["TLC and the CommunityModules evaluate TLA+ correctly", "java.lang.Math exp/log accurate to 1e-12",
